@@ -6,9 +6,11 @@
    them; that the streams written are VALID streams of the named format is a test against the standard
    library decoders in the correspondence run, not a theorem).  pickle is an arbitrary [dumps]/[loads] pair
    with  loads (dumps x) = Ok x.  A file system is any association list path |-> bytes.
-   Path hypotheses: the target does not exist, contains a separator and does not end with one
-   (pattern resolution for other shapes is C20's subject; relative targets are covered by the
-   correspondence run).  100000 partitions is the code's own bound: part numbers are formatted with
+   Path hypotheses of the round-trip theorems: the target is not empty, does not exist and does not end
+   with a separator; when it contains no separator at all (a name relative to the working directory, which
+   the real resolver returns as "./name/part-...") its alias "./name" must not exist either.  The
+   layout theorems (part_codec_saved, whole_text_saved) are stated for targets with a separator.
+   Pattern characters in the target are C20's subject.  100000 partitions is the code's own bound: part numbers are formatted with
    five digits and the reader sorts the names as strings. *)
 From Coq Require Import String ZArith NArith List Bool.
 Require Import PV.Base.PyStrOps PV.Gen.Codecs PV.Model.Files.
@@ -37,7 +39,8 @@ Theorem C08_text_roundtrip :
   forall (compress : codec -> bytes -> bytes) (decompress : codec -> bytes -> option bytes),
   (forall c b, decompress c (compress c b) = Some b) ->
   forall (f : fs) (p : path) (parts : list (list str)) (minPartitions : option Z),
-  fs_exists f p = false -> ends_with p [slash] = false -> contains_char slash p = true ->
+  fs_exists f p = false -> p <> [] -> ends_with p [slash] = false ->
+  (contains_char slash p = false -> fs_exists f (dot_slash ++ p) = false) ->
   Z.of_nat (length parts) <= 100000 ->
   Forall (Forall no_break) parts -> Forall (Forall scalar_str) parts ->
   exists f' pss,
@@ -53,7 +56,8 @@ Theorem C08_pickle_roundtrip :
   forall (obj : Type) (dumps : list obj -> bytes) (loads : bytes -> res (list obj)),
   (forall xs, loads (dumps xs) = Ok xs) ->
   forall (f : fs) (p : path) (parts : list (list obj)) (minPartitions : option Z),
-  fs_exists f p = false -> ends_with p [slash] = false -> contains_char slash p = true ->
+  fs_exists f p = false -> p <> [] -> ends_with p [slash] = false ->
+  (contains_char slash p = false -> fs_exists f (dot_slash ++ p) = false) ->
   Z.of_nat (length parts) <= 100000 ->
   exists f' pss,
     save_pickle compress obj dumps f p parts = Ok f' /\
@@ -245,6 +249,22 @@ Example text_roundtrip_instance :
   | Err _ => False
   end.
 Proof. vm_compute. repeat split; reflexivity. Qed.
+
+(* a target without any separator: the resolver returns "./o.gz/part-0000N.gz" and the loader finds the files *)
+Let rel_target : path := [111; 46; 103; 122]%N.
+Example relative_target_instance :
+  fs_exists [] rel_target = false /\ rel_target <> [] /\ ends_with rel_target [slash] = false /\
+  contains_char slash rel_target = false /\ fs_exists [] (dot_slash ++ rel_target) = false /\
+  match save_text ident [] rel_target data with
+  | Ok f' =>
+      sort_str (resolve f' rel_target) =
+        [ [46;47; 111;46;103;122; 47; 112;97;114;116;45;48;48;48;48;48;46;103;122];
+          [46;47; 111;46;103;122; 47; 112;97;114;116;45;48;48;48;48;49;46;103;122];
+          [46;47; 111;46;103;122; 47; 112;97;114;116;45;48;48;48;48;50;46;103;122] ]%N /\
+      read_text unident f' rel_target None = Ok [[[97]; []]; []; [[98; 32; 99]]]%N
+  | Err _ => False
+  end.
+Proof. vm_compute. repeat split; try reflexivity. discriminate. Qed.
 
 Example codec_examples :
   get_codec [120; 46; 116; 97; 114; 46; 103; 122]%N = CTarGz /\          (* x.tar.gz *)
